@@ -317,12 +317,19 @@ class GoDriver:
         return out
 
 
-def run_real_binary(binary, argv, files, env_extra=None, tz='UTC', stdout_to=None, timeout=20, home_config=None, stable_dir=False, modes=None, drop_env=()):
+_RUN_SEQ = __import__('itertools').count()
+
+
+def new_slot():
+    """a scratch directory number that no other call of this process uses (the path is an input of the program: `gen` prints $HOME)"""
+    return 1 + next(_RUN_SEQ) % (10**9 - 1)
+
+
+def run_real_binary(binary, argv, files, env_extra=None, tz='UTC', stdout_to=None, timeout=20, home_config=None, stable_dir=False, modes=None, drop_env=(), slot=None):
     """run the untagged binary as a sub-process in a scratch directory with the given files"""
     # stable_dir: the same scratch path on every call of this process ($HOME is an input of the program: `gen` prints it)
-    base = os.path.join(scratch_root(), 'real-%07d-%09d' % (os.getpid(), 0 if stable_dir else int(time.time() * 1e6) % 10**9))
-    if stable_dir:
-        shutil.rmtree(base, ignore_errors=True)
+    base = os.path.join(scratch_root(), 'real-%07d-%09d' % (os.getpid(), 0 if stable_dir else slot if slot is not None else new_slot()))
+    shutil.rmtree(base, ignore_errors=True)       # (a stale directory of a killed process with the same pid)
     binary = staged(binary)
     home = os.path.join(base, 'home')
     work = os.path.join(base, 'work')
